@@ -142,9 +142,18 @@ def scenario_amend_running_producer():
         "plans": {".": [["static", ["src/a.txt", "src/c.txt"]], ["step", "C"], ["step", "D"], ["step", "P"]]},
         "order": ["C", "D", "P"],
     }
+    # fillers that start and stop around the producer's end: the record of when the producer
+    # stopped has to survive other steps starting and stopping before the consumer amends
+    for k in range(4):
+        spec["sources"][f"src/f{k}.txt"] = f"filler {k}\n"
+        spec["steps"][f"F{k}"] = {"kind": "do", "salt": "", "inp": [f"src/f{k}.txt"], "out": [f"out/f{k}.txt"],
+                                  "amend_inp": ["src/a.txt"] if k % 2 else []}
+        spec["plans"]["."][0][1].append(f"src/f{k}.txt")
+        spec["plans"]["."].append(["step", f"F{k}"])
+        spec["order"].append(f"F{k}")
     phases = [{"spec": json.loads(json.dumps(spec)), "edits": ["src/a.txt changed"]}]
     phases[0]["spec"]["sources"]["src/a.txt"] = "a changed\n"
-    return spec, phases, {"njob": 3}
+    return spec, phases, {"njob": 4}
 
 
 def scenario_static_changes_while_running():
@@ -396,7 +405,7 @@ def run_case(case):
         try:
             if "scenario" in case:
                 spec, phases, cfg0 = SCENARIOS[case["scenario"]]()
-                reps = 12
+                reps = 30
             else:
                 spec = gen.gen_project(rng, prob={"res": 0.2})
                 phases = gen.gen_history(rng, spec, nphase=rng.randint(0, 2))
